@@ -154,7 +154,7 @@ def judge(sysd, res, choices, angle_options):
                 continue
             nres += 1
             centre = np.asarray(nd["position"], dtype=float)
-            if np.abs(P.mean(axis=0) - centre).max() > 1e-9:
+            if not np.abs(P.mean(axis=0) - centre).max() <= 1e-9:
                 bad("centre-of-geometry-on-residue-position", f"molecule {mi} residue {nd['resid']} ({nd['resname']}): centre of geometry {P.mean(axis=0)} residue position {centre}")
             tmpl = mm.templates[nd["template"]]
             if sorted(tmpl) != sorted(names):
@@ -162,7 +162,7 @@ def judge(sysd, res, choices, angle_options):
                 continue
             T = np.array([tmpl[nm] for nm in names], dtype=float)
             Q = (P - centre) / fudge
-            if np.abs(gram(Q) - gram(T)).max() > 1e-8:
+            if not np.abs(gram(Q) - gram(T)).max() <= 1e-8:
                 bad("rigid-copy-of-template", f"molecule {mi} residue {nd['resid']} ({nd['resname']}): Gram matrices differ by {np.abs(gram(Q) - gram(T)).max()}")
             if len(names) >= 4:
                 for quad in itertools.combinations(range(len(names)), 4):
